@@ -319,6 +319,9 @@ def _oracle_hist(case):
                     fails.append(_fail("canon-unmapped-sides", "%s: unmapped sides changed in %r" % (where, out)))
             if not got.get("returns_self", True):
                 fails.append(_fail("canon-api", "%s: canonicalise did not return the object" % where))
+        elif st["op"] == "helpers" and isinstance(got, list) and len(got) == 4 and (got[0] != got[1] or got[2] != got[3]):
+            fails.append(_fail("canon-api", "%s: get_aam_pairwise_indices forms differ or remap_graph(list[int]) <> remap_graph(pairs): %s"
+                               % (where, json.dumps(got)[:300])))
         elif st["op"] == "props" and isinstance(got, list) and got[0] != got[1]:
             fails.append(_fail("history-independence", "%s: two consecutive reads of the properties differ" % where))
     return fails[:3]
